@@ -36,7 +36,7 @@ def _replay(stem, vals):
         o = np.array([0.5, -2.0, 3.0])
         s = np.array([[0.1, 0.2, 0.3], [0.6, 0.4, 0.7]])
         u = am.System(atoms=am.Atoms(atype=[1, 2], pos=s.dot(V) + o, tag=[7, 8]), box=am.Box(vects=V, origin=o), symbols=['Al', 'Cu'])
-        for sizes in ((2, 1, 1), (1, 2, 3), ((-1, 1), 2, (-2, 0)), (-2, 1, 1)):
+        for sizes in ((2, 1, 1), (1, 2, 3), ((-1, 1), 2, (-2, 0)), (-2, 1, 1), ((-1, 2), 1, (-2, 0)), (1, (-2, 1), -2)):
             lo = [x[0] if isinstance(x, tuple) else min(x, 0) for x in sizes]
             hi = [x[1] if isinstance(x, tuple) else max(x, 0) for x in sizes]
             m = [h - l for l, h in zip(lo, hi)]
